@@ -534,7 +534,7 @@ func alertsOracle(prop string, res *RunResult) []Violation {
 			}
 			// was the attempt delivered? replay the harness's failure rule for this incarnation
 			if as := expAttempts[ii]; len(as) > 0 && as[len(as)-1].at == h.ms {
-				if !attemptFails(fails[ii], deliv[ii], h.ms) {
+				if !attemptFails(name, deliv[ii], h.ms) {
 					if h.State == 3 {
 						lastNotified = 3
 					} else {
@@ -550,7 +550,8 @@ func alertsOracle(prop string, res *RunResult) []Violation {
 			}
 			var got []delivery
 			for _, d := range deliv[ii] {
-				if strings.HasSuffix(d.URL, "/"+name) {
+				// evaluations after the last state read of this alert are not in the history the model follows
+				if strings.HasSuffix(d.URL, "/"+name) && d.SimMs <= lastReadAt[name] {
 					got = append(got, d)
 				}
 			}
@@ -601,9 +602,9 @@ func alertsOracle(prop string, res *RunResult) []Violation {
 
 // attemptFails: did the harness fail the delivery made at time at? (the recorded delivery carries the flag;
 // when nothing was recorded the rule is replayed as "not failed")
-func attemptFails(_ interface{}, ds []delivery, at int64) bool {
+func attemptFails(alert string, ds []delivery, at int64) bool {
 	for _, d := range ds {
-		if absI64(d.SimMs-at) <= 3000 && d.Failed {
+		if strings.HasSuffix(d.URL, "/"+alert) && absI64(d.SimMs-at) <= 3000 && d.Failed {
 			return true
 		}
 	}
